@@ -321,6 +321,12 @@ func closedRing(v ssa.Value, from *ssa.BasicBlock, depth int) (bool, string) {
 		lc, ok := bo.X.(*ssa.Call)
 		return ok && eng.BuiltinName(lc) == "len" && lc.Call.Args[0] == x
 	}
+	// a ring a function literal captured: the one value the enclosing function stored in the variable
+	if cv, ok := capturedValue(v); ok {
+		if st := storeOf(cv); st != nil {
+			return closedRing(cv, st.Block(), depth+1)
+		}
+	}
 	switch x := v.(type) {
 	case *ssa.Call:
 		if eng.BuiltinName(x) == "append" && len(x.Call.Args) == 2 {
@@ -388,6 +394,21 @@ func closedRing(v ssa.Value, from *ssa.BasicBlock, depth int) (bool, string) {
 		return true, "closed on every incoming edge"
 	}
 	return false, "value " + v.Name() + " is not recognisably closed"
+}
+
+// storeOf: the store instruction that puts v into a local cell (nil if v is not stored into one).
+func storeOf(v ssa.Value) *ssa.Store {
+	if v.Referrers() == nil {
+		return nil
+	}
+	for _, rf := range *v.Referrers() {
+		if st, ok := rf.(*ssa.Store); ok && st.Val == v {
+			if _, isCell := st.Addr.(*ssa.Alloc); isCell {
+				return st
+			}
+		}
+	}
+	return nil
 }
 
 func topLevel(f *ssa.Function) *ssa.Function {
